@@ -51,7 +51,7 @@ Proof.
 Qed.
 
 Lemma nth_error_app_len (a b : list N) : nth_error (a ++ b) (length a) = hd_error b.
-Proof. induction a; cbn; auto. destruct b; auto. Qed.
+Proof. induction a; cbn; auto. Qed.
 
 Lemma scanAll_munch m F src : forall fuel s ts pre, scanAll m F fuel s = Some ts ->
   src = pre ++ rest s -> cur s = len pre -> Forall (munch_ok src) ts.
